@@ -50,6 +50,12 @@ type event struct {
 	Obs   []obsRec   `json:"obs"`
 	Nodes []int64    `json:"nodes,omitempty"`
 	Edges [][3]int64 `json:"edges,omitempty"`
+	// Construct events (dense families): constructor kind, the ids of the node slice in the order
+	// given, the number of nodes asked for and the init weight
+	Kind string  `json:"kind"`
+	Ord  []int64 `json:"ord"`
+	N    int     `json:"n"`
+	Init int64   `json:"init"`
 }
 
 func nodeIDs(it graph.Nodes, tk *tokens) []int64 {
@@ -86,12 +92,74 @@ func recordSimple(out *core.Out, args []string, seed int64, sum *core.Summary) e
 		}
 		for h := 0; h < hist; h++ {
 			tk := &tokens{t: map[int64]int64{}}
-			out.Emit(event{Op: "Reset", Type: k.name, Obs: []obsRec{}})
-			g := k.mk()
+			var g graph.Graph
 			var univ []int64
 			if dense {
-				univ = []int64{-1, 0, 1, 2, 3}
+				// the construction is part of the history: plain or From constructor, node slice in
+				// ascending, descending or a seed-chosen order, init = absent or not; now and then a
+				// slice whose ids are not contiguous from 0 is tried first (documented to panic)
+				n := 3 + rng.Intn(4)
+				for {
+					ev := event{Op: "Construct", Type: k.name, Obs: []obsRec{}, Kind: "from", Ord: []int64{}, N: n}
+					if rng.Intn(4) == 0 {
+						ev.Kind = "plain"
+					}
+					ev.Init = int64(rng.Intn(4))
+					if rng.Intn(2) == 0 {
+						ev.Init = 0
+					}
+					if ev.Kind == "from" {
+						switch rng.Intn(4) {
+						case 0:
+							for i := 0; i < n; i++ {
+								ev.Ord = append(ev.Ord, int64(i))
+							}
+						case 1:
+							for i := n - 1; i >= 0; i-- {
+								ev.Ord = append(ev.Ord, int64(i))
+							}
+						default:
+							for _, i := range rng.Perm(n) {
+								ev.Ord = append(ev.Ord, int64(i))
+							}
+						}
+						if rng.Intn(5) == 0 {
+							// break contiguity: shift one id, duplicate one, or start below zero
+							switch i := rng.Intn(n); rng.Intn(3) {
+							case 0:
+								ev.Ord[i] += int64(n)
+							case 1:
+								ev.Ord[i] = ev.Ord[(i+1)%n]
+							default:
+								ev.Ord[i] = -1
+							}
+						}
+					}
+					self := float64(rng.Intn(3)) - 1
+					oc := core.Call(func() { g = construct(directed, ev.Kind, n, ev.Ord, float64(ev.Init), self, 0) })
+					ev.Out = "ok"
+					if oc.Panicked {
+						ev.Out = "panic"
+						g = nil
+					} else {
+						ev.NN = len(nodeIDs(g.Nodes(), tk))
+						if eg, ok := g.(interface{ Edges() graph.Edges }); ok {
+							for it := eg.Edges(); it.Next(); {
+								ev.NE++
+							}
+						}
+					}
+					out.Emit(ev)
+					if g != nil {
+						break
+					}
+				}
+				for i := -1; i <= n; i++ {
+					univ = append(univ, int64(i))
+				}
 			} else {
+				out.Emit(event{Op: "Reset", Type: k.name, Obs: []obsRec{}, Ord: []int64{}})
+				g = k.mk()
 				nsmall := 6 + rng.Intn(54) // small universes churn ids, large ones grow
 				for i := 0; i < nsmall; i++ {
 					univ = append(univ, int64(i))
@@ -100,7 +168,7 @@ func recordSimple(out *core.Out, args []string, seed int64, sum *core.Summary) e
 			}
 			pick := func() int64 { return univ[rng.Intn(len(univ))] }
 			for s := 0; s < steps; s++ {
-				ev := event{Obs: []obsRec{}}
+				ev := event{Obs: []obsRec{}, Ord: []int64{}}
 				var touched []int64
 				var oc core.Outcome
 				r := rng.Intn(100)
@@ -132,9 +200,15 @@ func recordSimple(out *core.Out, args []string, seed int64, sum *core.Summary) e
 							w = 0 // the absent value: removes the edge
 						}
 					}
+					unit := dense && rng.Intn(5) == 0 // the unweighted interface of the dense types stores weight 1
+					if unit {
+						w = 1
+					}
 					ev.Op, ev.U, ev.V, ev.W = "SetEdge", tk.of(u), tk.of(v), w
 					oc = core.Call(func() {
-						if k.weighted {
+						if unit {
+							g.(interface{ SetEdge(graph.Edge) }).SetEdge(simple.Edge{F: simple.Node(u), T: simple.Node(v)})
+						} else if k.weighted {
 							g.(interface{ SetWeightedEdge(graph.WeightedEdge) }).SetWeightedEdge(simple.WeightedEdge{F: simple.Node(u), T: simple.Node(v), W: float64(w)})
 						} else {
 							g.(interface{ SetEdge(graph.Edge) }).SetEdge(simple.Edge{F: simple.Node(u), T: simple.Node(v)})
